@@ -90,6 +90,8 @@ def lean_ty(t) -> str:
 	if k == 'acc': return 'Py.Acc'
 	if k == 'nd': return 'Py.ND'
 	if k == 'index': return 'Py.Index'
+	if k == 'idx': return 'Py.IdxVal'
+	if k == 'csel': return 'Py.CSel'
 	if k == 'dtype': return 'Py.DType'
 	if k == 'score': return 'UInt32'
 	if k == 'char': return 'Char'
@@ -118,6 +120,8 @@ def default(t) -> str:
 	if k == 'acc': return '(default : Py.Acc)'
 	if k == 'nd': return '(default : Py.ND)'
 	if k == 'index': return '(default : Py.Index)'
+	if k == 'idx': return '(default : Py.IdxVal)'
+	if k == 'csel': return '(default : Py.CSel)'
 	if k == 'dtype': return '(default : Py.DType)'
 	if k == 'score': return '(0 : UInt32)'
 	if k == 'char': return "' '"
@@ -311,6 +315,31 @@ FUNCS = [
 	     params=[('self_values', LIST(INT)), ('self_bounds', LIST(INT)), ('index', LIST(BOOL))], ret=('carr',), self_attrs={'values': ('self_values', LIST(INT)), 'bounds': ('self_bounds', LIST(INT))}, self_len_expr='(((s.self_bounds).length : Int) - 1)', self_exprs={'LEN': '(((s.self_bounds).length : Int) - 1)', 'V': 's.self_values', 'B': 's.self_bounds'}, self_calls={'_check_index': ('check_index', ['LEN']), '_getitem_int': ('concat_getitem_int', ['V', 'B']), 'sizeof': ('concat_sizeof', ['V', 'B']), '_getitem_int_array': ('concat_getitem_int_array', ['V', 'B']), 'super._getitem_slice': ('mixin_getitem_slice', ['V', 'B'])}),
 	dict(name='concat_getitem_slice', file='sigs/base.py', qual='ConcatenatedSignatureArray._getitem_slice', module='PyConcat', env=[],
 	     params=[('self_values', LIST(INT)), ('self_bounds', LIST(INT)), ('s_', TUP(OPT(INT), OPT(INT), OPT(INT)))], ret=('carr',), self_attrs={'values': ('self_values', LIST(INT)), 'bounds': ('self_bounds', LIST(INT))}, self_len_expr='(((s.self_bounds).length : Int) - 1)', self_exprs={'LEN': '(((s.self_bounds).length : Int) - 1)', 'V': 's.self_values', 'B': 's.self_bounds'}, self_calls={'_check_index': ('check_index', ['LEN']), '_getitem_int': ('concat_getitem_int', ['V', 'B']), 'sizeof': ('concat_sizeof', ['V', 'B']), '_getitem_int_array': ('concat_getitem_int_array', ['V', 'B']), 'super._getitem_slice': ('mixin_getitem_slice', ['V', 'B'])}),
+	# --- util/indexing.py: the dispatch itself, as the packed collections inherit it.  `index` is a dynamically typed value (Py.IdxVal: what
+	#     isinstance / len / np.asarray say about the object); the NumPy expressions are read as a whole (exact text -> PyRt function).
+	dict(name='concat_getitem', file='util/indexing.py', qual='AdvancedIndexingMixin.__getitem__', module='PyGetitem', env=[],
+	     params=[('self_values', LIST(INT)), ('self_bounds', LIST(INT)), ('index', ('idx',))], ret=('csel',), split_loop_targets=True,
+	     self_attrs={'values': ('self_values', LIST(INT)), 'bounds': ('self_bounds', LIST(INT))}, self_len_expr='(((s.self_bounds).length : Int) - 1)', self_exprs={'LEN': '(((s.self_bounds).length : Int) - 1)', 'V': 's.self_values', 'B': 's.self_bounds'}, self_calls={'_check_index': ('check_index', ['LEN']), '_getitem_int': ('concat_getitem_int', ['V', 'B']), 'sizeof': ('concat_sizeof', ['V', 'B']), '_getitem_int_array': ('concat_getitem_int_array', ['V', 'B']), 'super._getitem_slice': ('mixin_getitem_slice', ['V', 'B']), '_getitem_slice': ('concat_getitem_slice', ['V', 'B']), '_getitem_bool_array': ('mixin_getitem_bool_array', ['V', 'B'])},
+	     opaque={
+	         'isinstance(index, (int, np.integer))': ('(Py.IdxVal.isInt s.index)', BOOL),
+	         'isinstance(index, slice)': ('(Py.IdxVal.isSlice s.index)', BOOL),
+	         'isinstance(index, np.ndarray)': ('(Py.IdxVal.isNd s.index)', BOOL),
+	         'isinstance(index, (str, bytes, Mapping, Set))': ('(Py.IdxVal.isSpecial s.index)', BOOL),
+	         '[index.start, index.stop, index.step]': ('(Py.IdxVal.sliceFields s.index)', LIST(OPT(OPT(INT)))),
+	         'isinstance(i_1, (int, np.integer))': ('(Py.IdxVal.fieldIsInt s.i_1)', BOOL),
+	         'index.step == 0': ('(Py.IdxVal.stepIsZero s.index)', BOOL),
+	         'len(index)': ('((((Py.IdxVal.len? s.index).getD 0 : Nat) : Int))', INT, [('(Py.IdxVal.len? s.index).isNone', 'TypeError')]),
+	         'np.empty(0, dtype=int)': ('Py.IdxVal.emptyInt', ('idx',)),
+	         'np.asarray(index)': ('(Py.IdxVal.asarray s.index)', ('idx',), [('(Py.IdxVal.asarrayFails s.index)', 'ValueError')]),
+	         'index.ndim != 1': ('(decide (Py.IdxVal.ndim s.index ≠ 1))', BOOL, [('(!(Py.IdxVal.isNd s.index))', 'AttributeError')]),
+	         "index.dtype.kind == 'b'": ("(Py.IdxVal.kind s.index == 'b')", BOOL, [('(!(Py.IdxVal.isNd s.index))', 'AttributeError')]),
+	         "index.dtype.kind in 'iu'": ("(Py.IdxVal.kind s.index == 'i' || Py.IdxVal.kind s.index == 'u')", BOOL, [('(!(Py.IdxVal.isNd s.index))', 'AttributeError')]),
+	         "index.dtype.kind == 'u'": ("(Py.IdxVal.kind s.index == 'u')", BOOL, [('(!(Py.IdxVal.isNd s.index))', 'AttributeError')]),
+	         'index.astype(np.intp)': ('(Py.IdxVal.astypeIntp s.index)', ('idx',)),
+	         'index < 0': ('(Py.IdxVal.ltZero s.index)', LIST(BOOL)),
+	         'isneg.any()': ('((s.isneg).any id)', BOOL),
+	     },
+	     stmt_opaque={'np.add(index, len(self), out=index, where=isneg)': ('index', '(Py.IdxVal.addWhere s.index (((s.self_bounds).length : Int) - 1) s.isneg)', ('idx',))}),
 ]
 
 EXC = {'ValueError', 'TypeError', 'IndexError', 'KeyError', 'AttributeError', 'AssertionError', 'RuntimeError'}
@@ -401,6 +430,20 @@ class Fn:
 			return E(f'(Py.Index.slice ({e.lean}).1 ({e.lean}).2)', ty, e.raises)
 		if ty == ('index',) and e.ty == LIST(INT):
 			return E(f'(Py.Index.ints {e.lean})', ty, e.raises)
+		# a dynamically typed index used where the callee expects one particular kind (the enclosing isinstance / dtype tests select it; a value
+		# of another kind raises as Python would: int() / slice.indices() / iteration of a non-integer)
+		if e.ty == ('idx',) and ty == INT:
+			return E(f'(Py.IdxVal.getInt {e.lean})', ty, e.raises + [(f'(!(Py.IdxVal.isInt {e.lean}))', 'TypeError')])
+		if e.ty == ('idx',) and ty == TUP(OPT(INT), OPT(INT), OPT(INT)):
+			return E(f'(Py.IdxVal.sliceTuple {e.lean})', ty, e.raises + [(f'(Py.IdxVal.sliceHasOther {e.lean})', 'TypeError')])
+		if e.ty == ('idx',) and ty == LIST(INT):
+			return E(f'(Py.IdxVal.ints {e.lean})', ty, e.raises + [(f'(!(Py.IdxVal.isNd {e.lean}))', 'TypeError')])
+		if e.ty == ('idx',) and ty == LIST(BOOL):
+			return E(f'(Py.IdxVal.bools {e.lean})', ty, e.raises + [(f'(!(Py.IdxVal.isNd {e.lean}))', 'TypeError')])
+		if ty == ('csel',) and e.ty == LIST(INT):
+			return E(f'(Py.CSel.one {e.lean})', ty, e.raises)
+		if ty == ('csel',) and e.ty == ('carr',):
+			return E(f'(Py.CSel.many {e.lean})', ty, e.raises)
 		if e.ty == NUM and ty == NUMINF:
 			return E(f'(some {e.lean})', ty, e.raises)
 		if e.ty == NUMINF and ty == NUM:      # float('inf') where a distance is expected: outside the model, reported as an exception
@@ -1171,6 +1214,9 @@ class Fn:
 		v = st.value
 		if isinstance(v, ast.Constant) and isinstance(v.value, str):
 			return ''   # doc-string
+		so = (self.d.get('stmt_opaque') or {}).get(ast.unparse(v))
+		if so is not None:       # a call that updates one local in place (exact text, declared per function): (variable, new value, type, raises)
+			return self.assign(so[0], E(so[1], so[2], list(so[3]) if len(so) > 3 else []), ind)
 		if (isinstance(v, ast.Call) and isinstance(v.func, ast.Name) and v.func.id in self.known and self.known[v.func.id].get('fills_out')
 				and any(k.arg == 'out' for k in v.keywords)):
 			# NumPy basic slicing yields a view: what the callee writes into `out=base[…]` is written into `base`
@@ -1555,6 +1601,8 @@ class Fn:
 			xs = E(f'((List.range (({hi}) - ({lo})).toNat).map (fun (j : Nat) => ({lo}) + (j : Int)))', LIST(INT), guard_all(a))
 		else:
 			xs = self.value(it)
+		if xs.ty == ('idx',):      # iterating an integer index array yields its entries
+			xs = self.coerce(xs, LIST(INT), 'iterated index')
 		if xs.ty == BYTES: elt = BYTE
 		elif xs.ty[0] in ('list', 'set'): elt = xs.ty[1]
 		else: raise Untranslatable(f'for loop over {xs.ty}')
@@ -1623,7 +1671,10 @@ class Fn:
 		if not isinstance(st.body[0], (ast.Assign, ast.Expr, ast.AugAssign)):
 			raise Untranslatable('try body that is not a simple statement')
 		h = st.handlers[0]
-		if h.name: raise Untranslatable('except … as name')
+		if h.name:
+			uses = [x for b in h.body for x in ast.walk(b) if isinstance(x, ast.Name) and x.id == h.name]
+			causes = [b.cause for b in h.body if isinstance(b, ast.Raise) and isinstance(b.cause, ast.Name) and b.cause.id == h.name]
+			if len(uses) != len(causes): raise Untranslatable('except … as name, with the name used for more than `raise … from name`')
 		saved = set(self.narrow)
 		body = self.block(st.body, ind + '  ')
 		nb = self.narrow
@@ -1793,6 +1844,34 @@ def rename_locals(node: ast.FunctionDef) -> ast.FunctionDef:
 	return ast.fix_missing_locations(R().visit(copy.deepcopy(node)))
 
 
+def split_loop_targets(node: ast.FunctionDef) -> ast.FunctionDef:
+	"""a name that is the target of several `for` loops and occurs nowhere outside them is one variable per loop (`i` for the fields of a
+	slice, `i` again for the entries of an array): the k-th loop's occurrences become `<name>_<k>`, so that each has one type"""
+	import copy
+	node = copy.deepcopy(node)
+	loops = {}
+
+	class V(ast.NodeVisitor):
+		def visit_For(self, n):
+			if isinstance(n.target, ast.Name):
+				loops.setdefault(n.target.id, []).append(n)
+			self.generic_visit(n)
+	V().visit(node)
+	for name, ls in loops.items():
+		if len(ls) < 2:
+			continue
+		inside = {id(x) for l in ls for x in ast.walk(l) if isinstance(x, ast.Name) and x.id == name}
+		everywhere = [x for x in ast.walk(node) if isinstance(x, ast.Name) and x.id == name]
+		nested = any(l2 is not l and any(x is l2 for x in ast.walk(l)) for l in ls for l2 in ls)
+		if nested or any(id(x) not in inside for x in everywhere) or any(a.arg == name for a in node.args.args):
+			continue
+		for k, l in enumerate(ls, 1):
+			for x in ast.walk(l):
+				if isinstance(x, ast.Name) and x.id == name:
+					x.id = f'{name}_{k}'
+	return node
+
+
 def fragment_of(node: ast.FunctionDef, d) -> ast.FunctionDef:
 	"""the statements of `node` from the one whose text is d['fragment'][0] up to (excluding) the one whose text starts with d['fragment'][1],
 	as a function of the declared parameters that returns d['fragment'][2]; both delimiters must be found exactly once"""
@@ -1881,6 +1960,8 @@ def regenerate(repo: Path, out_dir: Path, stub: set = frozenset()) -> dict:
 			if [mangle(w) for w in want] != have or node.args.vararg or node.args.kwarg:
 				raise Untranslatable(f'parameters of {d["qual"]} are {want}, the declaration expects {have}')
 			node = rename_locals(node)
+			if d.get('split_loop_targets'):
+				node = split_loop_targets(node)
 			if d.get('self_as_vars'):
 				node = self_attrs_to_names(node, d['self_as_vars'])
 			fn = Fn(d, node, known)
